@@ -170,3 +170,38 @@ def partition_replay(unit, policy, estimands, thr=50.0, lo=0.5, hi=2.0, unit_blo
     except Exception as e:  # noqa
         out["exc"] = f"{type(e).__name__}: {e}"
     return out
+
+
+def fit_model_retry(kind):
+    """real ConformalElectionModel.fit_model with a solver whose FIRST fit call fails with `kind`"""
+    import cvxpy
+    from elexsolver.QuantileRegressionSolver import QuantileRegressionSolver
+
+    from elexmodel.models.NonparametricElectionModel import NonparametricElectionModel
+
+    calls = {"n": 0}
+    real_fit = QuantileRegressionSolver.fit
+
+    def fit(self, *a, **k):
+        calls["n"] += 1
+        if calls["n"] == 1:
+            if kind == "SolverError":
+                raise cvxpy.error.SolverError("injected")
+            raise UserWarning("Solution may be inaccurate. (injected)")
+        return real_fit(self, *a, **k)
+
+    QuantileRegressionSolver.fit = fit
+    out = {"exc": None, "n_calls": 0}
+    try:
+        m = NonparametricElectionModel({})
+        rng = np.random.default_rng(0)
+        X = pd.DataFrame({"intercept": np.ones(12), "f": rng.normal(size=12)})
+        y = pd.Series(rng.normal(size=12))
+        w = pd.Series(rng.uniform(1, 3, size=12))
+        m.fit_model(QuantileRegressionSolver(), X, y, 0.5, w, True)
+    except Exception as e:  # noqa
+        out["exc"] = f"{type(e).__name__}: {e}"
+    finally:
+        QuantileRegressionSolver.fit = real_fit
+    out["n_calls"] = calls["n"]
+    return out
